@@ -149,7 +149,12 @@ def main(argv):
             replay = argv[i + 1]
             i += 1
         i += 1
-    seed = int(os.environ.get("VERIF_SEED", "20260926"))
+    raw_seed = (os.environ.get("VERIF_SEED") or "").strip()
+    try:
+        seed = int(raw_seed) if raw_seed else 20260926
+    except ValueError:  # any text is a seed: hash it reproducibly
+        import zlib
+        seed = zlib.crc32(raw_seed.encode())
     import logging
 
     logging.getLogger("asyncio").setLevel(logging.CRITICAL)  # cancelled-dispatcher noise at server.close()
